@@ -1,6 +1,8 @@
 package catalog
 
 import (
+	"fmt"
+
 	"github.com/jsightapi/jsight-schema-core/notations/jschema/ischema"
 )
 
@@ -24,15 +26,19 @@ func (b PathVariablesBuilder) Len() int {
 	return b.objectBuilder.Len()
 }
 
-func (b PathVariablesBuilder) Build() *PathVariables {
+func (b PathVariablesBuilder) Build() (*PathVariables, error) {
 	uutNames := b.objectBuilder.UserTypeNames()
 	for _, name := range uutNames {
 		if ut, ok := b.catalogUserTypes.Get(name); ok {
 			switch es := ut.Schema.(type) {
 			case *ExchangeJSightSchema:
-				b.objectBuilder.AddType(name, es.JSchema)
+				if err := b.objectBuilder.AddType(name, es.JSchema); err != nil {
+					return nil, err
+				}
 			case *ExchangeRegexSchema:
-				b.objectBuilder.AddType(name, es.RSchema)
+				if err := b.objectBuilder.AddType(name, es.RSchema); err != nil {
+					return nil, fmt.Errorf("%s: %w", name, err)
+				}
 			}
 		}
 	}
@@ -45,5 +51,5 @@ func (b PathVariablesBuilder) Build() *PathVariables {
 
 	return &PathVariables{
 		Schema: es,
-	}
+	}, nil
 }
